@@ -53,6 +53,21 @@ open Pyr.Pipeline (Point)
 def iRequest : Nat := 0
 def iInterface : Nat := 50
 
+/-! ## C14's structures are built through these two helpers ONLY (driver, witnesses, probe application), so that a field
+added to `ExcView.Stmt` / `ExcView.World` needs one line here.  Neutral values: no `accept=`, the body does not touch
+`request.response`, the callable is a function `(context, request)`. -/
+
+/-- an `add_view`-family statement of the composed model -/
+def mkStmt (reqIface ctxIface : Nat) (name : String) (preds : List ViewLookup.RawPred) (perm : ExcView.Perm)
+    (isExc exceptionOnly : Bool) (tag : Nat) (body : ExcView.Body) : Stmt :=
+  { reqIface := reqIface, ctxIface := ctxIface, name := name, preds := preds, accept := none, perm := perm, isExc := isExc,
+    exceptionOnly := exceptionOnly, tag := tag, body := body, touch := false, kind := .fnCR }
+
+/-- the security set-up and the exceptions the framework raises itself -/
+def mkWorld (sec : ExcView.Security) (notFound mismatch forbidden excNotFound excMismatch excForbidden : Exc) : World :=
+  { sec := sec, notFound := notFound, mismatch := mismatch, forbidden := forbidden, excNotFound := excNotFound,
+    excMismatch := excMismatch, excForbidden := excForbidden, viewResponse := 0 }
+
 /-! ## the application -/
 
 /-- `config.add_route(name, pattern, factory=…, use_global_views=…, custom_predicates=…)` -/
